@@ -83,3 +83,12 @@ add("C18",
     "must come back as tagged values.",
     "Guards: parameter names distinct (Python enforces it); CPython's co_varnames layout (Layout) is assumed and checked on every generated function through the model.",
     "Lean 4 proof (index arithmetic over the code-object layout) + correspondence on real code objects + inspect.signature oracle", "6/C18")
+add("C20",
+    "Theorems for declarations built from ARBITRARILY nested arguments over any interface DAG: C20_iter (iteration = ordered first-occurrence dedupe of the "
+    "in-place flattening — nested sequences, plain declarations and class specifications included; Nodup; same members), C20_mem, C20_sub (A - B is the sublist "
+    "of A of exactly those interfaces that neither are nor extend one of B), C20_add (no duplicates, exact union, A's order kept, shape before ++ (A ++ after), "
+    "every element of `before` strictly extends something in A ++ after, no element of `after` strictly extends an element of A). flattened() = __iro__ (C02/C03 "
+    "give its members and order). The model is compared with both twins on declarations from random nested trees; every answer is judged against the "
+    "statement's laws by an independent oracle; flattened() and operand purity are checked on the real objects.",
+    "Guards: class declarations that are redundant with inherited ones are not generated (C01 allows dropping them, which would make 'declared then inherited' ambiguous).",
+    "Lean 4 proof (ordered-set laws by structural / mutual induction over nested arguments) + differential correspondence + statement oracle", "6/C20")
